@@ -143,7 +143,29 @@ def fn(name, *args):
             return a
     if name == 'imag' and len(args) == 1 and (args[0].op == 'const' or (args[0].op == 'atom' and args[0].val[1] in ('pos', 'real'))):
         return ZERO
+    if name in ('real', 'imag') and len(args) == 1 and args[0].op in ('add', 'mul', 'I'):
+        # x + i y written out with real atoms: its parts are x and y (so that `imag(mu) == 0` is a statement about the atom y)
+        sp = _split_re_im(args[0], 0)
+        if sp is not None:
+            return sp[0] if name == 'real' else sp[1]
     return _mk('fn', args, name)
+
+
+def _split_re_im(n, depth):
+    """(real part, imaginary part) of an expression built from real atoms, constants and the imaginary unit with + and * only; None for anything else (small expressions only)"""
+    if depth > 6: return None
+    if n.op == 'const': return (n, ZERO)
+    if n.op == 'I': return (ZERO, ONE)
+    if n.op == 'atom': return (n, ZERO) if n.val[1] in ('pos', 'real') else None
+    if n.op == 'add':
+        a = _split_re_im(n.args[0], depth + 1); b = _split_re_im(n.args[1], depth + 1)
+        if a is None or b is None: return None
+        return (add(a[0], b[0]), add(a[1], b[1]))
+    if n.op == 'mul':
+        a = _split_re_im(n.args[0], depth + 1); b = _split_re_im(n.args[1], depth + 1)
+        if a is None or b is None: return None
+        return (add(mul(a[0], b[0]), neg(mul(a[1], b[1]))), add(mul(a[0], b[1]), mul(a[1], b[0])))
+    return None
 
 
 def cmp(op, a, b):
